@@ -7,13 +7,10 @@ import itertools, random
 import numpy as np
 from harness import common as C
 
-# The ids of failing cases are returned as Z (binary), not nat: reading back a unary nat of depth ~50000 from the VM
-# overflows the stack, which would turn a run WITH disagreements into "shard not evaluated".  This `failing` shadows
-# Corr.C01.failing (same filter on Corr.C01.agree); Z_scope is opened so that the list prints without delimiters.
+# Corr.C01.failing returns the ids of failing cases as Z (binary; a unary nat of depth ~50000 cannot be read back from
+# the VM); Z_scope is opened so that the list prints without scope delimiters, as common.run_case_shards expects.
 HEADER = """From Coq Require Import List ZArith Bool Uint63. Import ListNotations.
 From TLV Require Import Base.Tensor Corr.C01.
-Definition failing (cs : list case) : list Z :=
-  map (fun c : case => let '(i, _, _, _) := c in Uint63.to_Z i) (filter (fun c => negb (agree c)) cs).
 Open Scope Z_scope."""
 
 REFOLD = ("fold", "partial_fold", "vec_to_tensor", "partial_vec_to_tensor")
